@@ -71,6 +71,16 @@ Theorem C14_lc_count : forall (c : pcfg) (h : list (pop P)) b cs st' out j x,
   (psize st <> 0 -> length (idx_tie k (pc_dists x)) = k - length (idx_below k (pc_dists x)) -> fst r = snd r).
 Proof. intros c h b cs st' out j x Hc st Hadd. exact (@lc_count P meas c st b cs st' out (prun_pinv meas c h Hc) Hadd j x). Qed.
 
+(** ... and the interval is exact: every count in it is produced by some valid selection *)
+Theorem C14_lc_count_complete : forall (c : pcfg) (h : list (pop P)) b cs st' out j x v,
+  1 <= pcap0 c -> let st := prun meas c h in
+  padd c st b cs = (st', Ok out) -> plc c = true -> 1 <= pk c -> nth_error (eff b cs) j = Some x ->
+  psize st <> 0 ->
+  let r := nth j (o_lc out) (0, 0) in
+  fst r <= v <= snd r ->
+  exists sel, is_knn (pk c) (pc_dists x) sel /\ countb (lower st (pc_obj x)) sel = v.
+Proof. intros c h b cs st' out j x v Hc st Hadd. exact (@lc_count_complete P meas c st b cs st' out (prun_pinv meas c h Hc) Hadd j x v). Qed.
+
 (** without local competition: one call appends the novel rows in batch order and touches nothing else;
     indices are exactly 0..n-1 *)
 Theorem C14_append_only_call : forall (c : pcfg) (h : list (pop P)) b cs st' out,
@@ -261,6 +271,7 @@ Print Assumptions C14_knn_sum_unique.
 Print Assumptions C14_admit_iff.
 Print Assumptions C14_reported_novelty.
 Print Assumptions C14_lc_count.
+Print Assumptions C14_lc_count_complete.
 Print Assumptions C14_append_only_call.
 Print Assumptions C14_append_only.
 Print Assumptions C14_indices.
